@@ -455,9 +455,37 @@ impl<'a> Eqc<'a> {
                     e.1 = (e.1 + 1) % 3;
                 }
             }
+            // the second operand is built through every insertion path the crate has (the history of a
+            // container includes which entry point wrote each pair); `apply` only lets a write through when
+            // the key is present or a slot is free, which is insert_unchecked's contract
+            let mut prng: Rng = self.cx.hist_rng(7_700_000 + i * 31 + (N * 64 + M) as u64);
             apply(&script_b, M, &mut mb, &mut |c, x| match x {
                 Some(x) => {
-                    b.insert(F::K::mk(c, 1), F::V::mk(x));
+                    let (k, val) = (F::K::mk(c, 1), F::V::mk(x));
+                    match prng.below(6) {
+                        0 => {
+                            // SAFETY: key present or len < M (see above)
+                            unsafe { b.insert_unchecked(k, val) };
+                            self.cx.rep.hit("histories:path:insert_unchecked");
+                        }
+                        1 => {
+                            b.checked_insert(k, val);
+                        }
+                        2 => {
+                            b.insert_key_value(k, val);
+                        }
+                        3 => match b.entry(k) {
+                            micromap::Entry::Occupied(mut o) => {
+                                o.insert(val);
+                            }
+                            micromap::Entry::Vacant(va) => {
+                                va.insert(val);
+                            }
+                        },
+                        _ => {
+                            b.insert(k, val);
+                        }
+                    }
                 }
                 None => {
                     F::K::with_q(c, |q| b.remove::<<F::K as KeyF>::Q>(q));
@@ -465,6 +493,12 @@ impl<'a> Eqc<'a> {
             });
             let want = model_eq(&ma, &mb);
             let (ab, ba) = (a == b, b == a);
+            // reflexivity on history-built operands (a container and itself, a container and its clone)
+            #[allow(clippy::eq_op)]
+            let (raa, rbb) = (a == a, b == b);
+            if !raa || !rbb || (a != a) || (b != b) {
+                v("not-reflexive", format!("maps reached by histories: a = {:?} (a == a: {}), b = {:?} (b == b: {})", ma, raa, mb, rbb));
+            }
             if (a != b) == want || (b != a) == want {
                 v("ne-is-not-the-negation", format!("maps reached by two histories: a = {:?}, b = {:?}: `!=` does not negate the extensional answer {}", ma, mb, want));
             }
